@@ -2,6 +2,7 @@
 import ast
 import builtins
 import collections
+import copy as _copy
 import dataclasses
 import enum
 import math
@@ -382,6 +383,8 @@ class Full(Engine):
             return self.math_fn(fn, args, pc, anysym)
         if fn is typing.cast:
             return args[1]
+        if fn is _copy.deepcopy or fn is _copy.copy:
+            return self.copy_value(args[0], fn is _copy.deepcopy)
         if fn is time.sleep:
             self.events.append((pc, "sleep", args[0]))
             return None
@@ -393,6 +396,25 @@ class Full(Engine):
         if fn is dataclasses.asdict and isinstance(args[0], Obj):
             raise Unsupported("asdict on symbolic object")
         return NotImplemented
+
+    def copy_value(self, v, deep):
+        """copy.copy / copy.deepcopy of a modelled value: containers get a new identity (recursively when deep)"""
+        sub = (lambda x: self.copy_value(x, True)) if deep else (lambda x: x)
+        if isinstance(v, Guarded):
+            return Guarded([(c, self.copy_value(x, deep)) for c, x in v.alts])
+        if isinstance(v, (dict, list, set, collections.deque)):
+            v = self.lift_container(v)
+        if isinstance(v, SDict):
+            return SDict([(c, k, sub(x), d) for c, k, x, d in v.log], v.is_set)
+        if isinstance(v, SList):
+            return SList([(c, sub(x)) for c, x in v.items], v.maxlen)
+        if isinstance(v, tuple):
+            return tuple(sub(x) for x in v)
+        if isinstance(v, Obj):
+            if self.is_value_class(v.cls) and not deep:
+                return v
+            return Obj(v.cls, {k: sub(x) for k, x in v.fields.items()})
+        return v
 
     def has_attr(self, o, name):
         if isinstance(o, Obj):
